@@ -11,3 +11,5 @@ import TradingVerif.Props.C05
 #print axioms TV.notional_def
 #print axioms TV.nlv_decomposition_inv
 #print axioms TV.flat_margin_zero_after_mark
+#print axioms TV.flat_margin_zero_at_valuation
+#print axioms TV.nlv_decomposition_open
